@@ -144,8 +144,8 @@ def rule_segloop(ctx):
         # skipped segments continue the loop (are not errors)
         for gb, c in gat:
             if (c[0] == "inlist" or c[0] == "empty") and (c[2] == ITEM or c[1] == ITEM):
-                tgts = [tg for (lab, tg) in body.edges(gb) if not (tg == app["bb"] or app["bb"] in body.reachable_from(tg, avoid={gb}))]
-                cont = all(h in body.reachable_from(tg, avoid={gb}) and not any(b in dict(models.returns(body)) for b in body.reachable_from(tg, avoid={gb, h})) for tg in tgts) and bool(tgts)
+                tgts = [tg for (lab, tg) in body.edges(gb) if not (tg == app["bb"] or app["bb"] in body.reachable_feasible(tg, avoid={gb}))]
+                cont = all(h in body.reachable_feasible(tg, avoid={gb}) and not any(b in dict(models.returns(body)) for b in body.reachable_feasible(tg, avoid={gb, h})) for tg in tgts) and bool(tgts)
                 ctx.ob("SEGLOOP", I("(ii) a skipped raw segment continues the loop without touching the result"), cont, fn=key, site=body.site(gb), detail=show_canon(c))
         # strict decode dominates
         dec_ok = any(c[0] == "callres" and c[1] in pm["decoders"] and c[2] == (ITEM,) and c[3] == "Ok?" for c in cat)
